@@ -176,12 +176,21 @@ example : (prepare 7 { init := false }).2 = true := by decide
 theorem fatal_class_exact (e : Nat) :
     classify e = .abort ↔ (e = EBADF ∨ e = EINVAL ∨ e = ENOTSOCK ∨ e = EOPNOTSUPP ∨ e = EFAULT) := by
   rw [classify_abort_iff]
-  simp [fatalErrnos]
+  -- independent of the order of the case labels
+  have h1 : ∀ x ∈ fatalErrnos, x ∈ [EBADF, EINVAL, ENOTSOCK, EOPNOTSUPP, EFAULT] := by decide
+  have h2 : ∀ x ∈ [EBADF, EINVAL, ENOTSOCK, EOPNOTSUPP, EFAULT], x ∈ fatalErrnos := by decide
+  constructor
+  · intro h; simpa using h1 e h
+  · intro h; exact h2 e (by simpa using h)
 
 /-- **retry_class_exact.**  `accept` is called again at once exactly after ECONNABORTED and EINTR. -/
 theorem retry_class_exact (e : Nat) : classify e = .retry ↔ (e = ECONNABORTED ∨ e = EINTR) := by
   rw [classify_retry_iff]
-  simp [retryErrnos]
+  have h1 : ∀ x ∈ retryErrnos, x ∈ [ECONNABORTED, EINTR] := by decide
+  have h2 : ∀ x ∈ [ECONNABORTED, EINTR], x ∈ retryErrnos := by decide
+  constructor
+  · intro h; simpa using h1 e h
+  · intro h; exact h2 e (by simpa using h)
 
 /-- **transient_errnos_not_fatal.**  An empty queue, an aborted attempt, a signal, a lack of
     descriptors / memory / buffers, a firewall rule and the network errors Linux passes through `accept`
